@@ -343,7 +343,10 @@ def gen_file(rng, style=None, kind=None, st=None):
     frows = [(sp(g), b, sp(lab)) for g, b, lab in rows]
     faliases = [(sp(t), sp(a)) for t, a in aliases]
     # layout
-    lines = ['#', '# generated maskbits file (%s, %s) %s' % (style, kind, note), '#', STRUCTS, '#' + '-' * 40]
+    structs = STRUCTS
+    if not faliases and rng.random() < 0.4:      # no maskalias struct: set_maskbits takes the `'MASKALIAS' in maskfile` exit
+        structs = STRUCTS[:STRUCTS.index('typedef struct {\n    char flag[20]; # Flag (real) name')]
+    lines = ['#', '# generated maskbits file (%s, %s) %s' % (style, kind, note), '#', structs, '#' + '-' * 40]
 
     def pad():
         return ' ' * rng.randint(1, 4)
@@ -570,14 +573,33 @@ def aliases_term(aliases):
     return C.coq_list(['A %s %s' % (s_num(f), s_num(a)) for f, a in aliases])
 
 
-def case_term(up, rows, aliases, load, calls, results):
+def coq_string(text):
+    if not all(ch == '\n' or 32 <= ord(ch) < 127 for ch in text):
+        raise ValueError('file text is not printable ASCII')
+    return '"%s"%%string' % text.replace('"', '""')
+
+
+STD_CFG = {'load_upper': True, 'scan_bits': 64, 'accumulate_is_add': True, 'acc_dtype_uint64': True, 'lookup_first': True,
+           'upper_group': True, 'upper_labels': True, 'exist_all': True}
+
+
+def cfg_term(cfg):
+    """cfg: 'code' (= C07.Code.code_cfg, from Generated/Maskbits.v) or a dict of the eight facts"""
+    if cfg == 'code':
+        return 'code_cfg'
+    return '(mkcfg %s %d%%nat %s %s %s %s %s %s)' % (
+        C.boollit(cfg['load_upper']), cfg['scan_bits'], C.boollit(cfg['accumulate_is_add']), C.boollit(cfg['acc_dtype_uint64']),
+        C.boollit(cfg['lookup_first']), C.boollit(cfg['upper_group']), C.boollit(cfg['upper_labels']), C.boollit(cfg['exist_all']))
+
+
+def case_term(cfg, text, rows, aliases, load, calls, results):
     loaded = 0 if load.get('ok') else (1 if load.get('err') == 'KeyError' else 2)
     ct = C.coq_list([call_res_term(c, r) for c, r in zip(calls, results)])
-    return '(Case %s %s %s %d %s)' % (C.boollit(up), rows_term(rows), aliases_term(aliases), loaded, ct)
+    return '(FCase %s %s %s %s %d %s)' % (cfg_term(cfg), coq_string(text), rows_term(rows), aliases_term(aliases), loaded, ct)
 
 
-HEADER = '''From Coq Require Import ZArith List Bool. Import ListNotations.
-From PV Require Import C07.Model. Open Scope Z_scope.'''
+HEADER = '''From Coq Require Import ZArith List Bool String. Import ListNotations.
+From PV Require Import C07.Model C07.FileModel C07.Code. Open Scope Z_scope.'''
 
 
 def decode_strings(text):
@@ -631,16 +653,16 @@ def build_and_run(ctx, files, chains, tag='par'):
     return res, outs[0]['pydl_file']
 
 
-def file_case(fi, out, up):
+def file_case(fi, out, cfg):
     calls = [c for _, c in fi['calls']]
     results = out['results'] if out['load'].get('ok') else []
-    return case_term(up, out['rows'], out['aliases'], out['load'], calls[:len(results)], results)
+    return case_term(cfg, fi['text'], out['rows'], out['aliases'], out['load'], calls[:len(results)], results)
 
 
 def correspond(ctx, proof_ok=True):
-    ok, log = C.coq_make(['C07/Model.vo'])
+    ok, log = C.coq_make(['C07/FileModel.vo', 'C07/Code.vo'])
     if not ok:
-        raise RuntimeError('C07/Model.v does not build:\n' + log[-2000:])
+        raise RuntimeError('C07/FileModel.v / C07/Code.v do not build:\n' + log[-2000:])
     info = getattr(ctx, 'c07_translate', None) or T.generate(C.REPO)[1]
     rng = ctx.rng
     nfiles = ctx.n(128, 2500)
@@ -678,7 +700,7 @@ def correspond(ctx, proof_ok=True):
     ctx.coverage['pydl_file'] = pydl_file
 
     # which load model matches the code?  the translator says; if it did not recognise the source, try both
-    cc = C.CoqCases(ctx.work, HEADER, 'run_cases', shard=ctx.n(8, 40))
+    cc = C.CoqCases(ctx.work, HEADER, 'run_fcases', shard=ctx.n(8, 40))
     usable = []
     for k, (fi, out) in enumerate(zip(files, outs)):
         if out.get('reader_error') or out['rows'] is None:
@@ -691,19 +713,21 @@ def correspond(ctx, proof_ok=True):
                           {'kind': 'broken-correspondence', 'item': 'yanny(raw=True) rows of a maskbits file (C01/C02 territory)',
                            'file_text': fi['text'], 'written': [fi['rows'], fi['aliases']], 'read': [out['rows'], out['aliases']]}, False)
         usable.append(k)
+    # which configuration of the model matches the code?  the translator says (Generated/Maskbits.v -> code_cfg); if
+    # it did not recognise the source, the standard model with and without normalisation at load are both tried
     if info.get('recognised'):
-        ups = [bool(info['load_upper'])]
+        cands = ['code']
     else:
-        ups = [False, True]
+        cands = [dict(STD_CFG), dict(STD_CFG, load_upper=False)]
     best = None
-    for up in ups:
-        verdicts = cc.run([file_case(files[k], outs[k], up) for k in usable], tag='cases_%s' % ('up' if up else 'asis'))
+    for n, cand in enumerate(cands):
+        verdicts = cc.run([file_case(files[k], outs[k], cand) for k in usable], tag='cases%d' % n)
         nbad = sum(1 for v in verdicts if v & 1)
         if best is None or nbad < best[0]:
-            best = (nbad, up, verdicts)
+            best = (nbad, cand, verdicts)
     _, up, verdicts = best
-    ctx.coverage['load_model'] = 'load %s (%s)' % ('true' if up else 'false',
-                                                  'from translate/c07.py' if info.get('recognised') else 'source not recognised: chosen by agreement')
+    ctx.coverage['model_cfg'] = ('code_cfg = %r (from translate/c07.py)' % (dict(info['facts'], load_upper=info['load_upper']),)
+                                 if info.get('recognised') else 'source not recognised (%s): chosen by agreement: %r' % (info.get('why'), up))
 
     # per-call verdicts of the files that do not pass
     bad_files = [(k, v) for k, v in zip(usable, verdicts) if v != 0]
@@ -726,7 +750,7 @@ def correspond(ctx, proof_ok=True):
 
     def detail(kv):
         k = kv[0]
-        return cc.show('call_verdicts %s' % file_case(files[k], outs[k], up), tag='detail%d' % k)
+        return cc.show('fcase_verdicts %s' % file_case(files[k], outs[k], up), tag='detail%d' % k)
     with ThreadPoolExecutor(max_workers=C.NPROC) as ex:
         texts = list(ex.map(detail, detailed))
     # is a failure of a file that was loaded after other files due to that history?  re-run it alone in a fresh process
@@ -740,9 +764,9 @@ def correspond(ctx, proof_ok=True):
         fi, out = files[k], outs[k]
         vs = C.parse_nat_list(txt)
         if vs is None:
-            raise C.CoqEvalError('cannot parse call_verdicts output: %r' % txt[-400:])
+            raise C.CoqEvalError('cannot parse fcase_verdicts output: %r' % txt[-400:])
         base = {'file_text': fi['text'], 'file_style': fi['style'], 'file_kind': fi['kind'] + (' (' + fi['note'] + ')' if fi['note'] else ''),
-                'rows_read': out['rows'], 'aliases_read': out['aliases'], 'load': out['load'], 'load_model_up': up,
+                'rows_read': out['rows'], 'aliases_read': out['aliases'], 'load': out['load'], 'model_cfg': up,
                 'dict_keys_after_load': out.get('keys')}
         history = [{'file_text': files[i]['text'], 'calls': [c for _, c in files[i]['calls']]} for i in pred[k]]
 
@@ -755,6 +779,15 @@ def correspond(ctx, proof_ok=True):
             return ':history-dependent', {'standalone_result': alone_result, 'history': history,
                                           'note_history': 'the answer depends on the maskbits files loaded before in the same process '
                                                           '(alone in a fresh process the answer is standalone_result); `history` lists them with the calls made'}
+        if vs[0] != 0:
+            findings.setdefault('C07:reader-model', (len(out['rows']), dict(
+                base, kind='broken-correspondence', item='C07.FileModel.file_rows (Yanny.Parse.parse_raw + file_tables)', verdict=vs[0],
+                meaning='the Coq model of the raw yanny reader, applied to the bytes of the file, does not give the MASKBITS / '
+                        'MASKALIAS rows the real reader returned (or puts the file outside the model)'),
+                'the Coq reader model and the real raw yanny reader disagree on the rows of a maskbits file', False))
+        vs = vs[1:]
+        if not vs:
+            continue
         if vs[0] != 0:
             mark, extra = hist_mark(alone[k]['load'] if k in alone else None, out['load'])
             sig = 'C07:load:file=%s:impl=%s:%s%s' % (fi['style'], outcome(out['load']), 'property' if vs[0] & 2 else 'model', mark)
@@ -788,7 +821,7 @@ def correspond(ctx, proof_ok=True):
             return None
         rows_t = rows_term(rep['rows_read'])
         al_t = aliases_term(rep['aliases_read'])
-        txt = cc.show('explain %s %s %s %s' % (C.boollit(up), rows_t, al_t, rep['coq_call']), tag='explain%s' % C.sha(rep['coq_call']))
+        txt = cc.show('explain_c %s %s %s %s' % (cfg_term(up), rows_t, al_t, rep['coq_call']), tag='explain%s' % C.sha(rep['coq_call']))
         return decode_strings(' '.join(txt.split()))[-1500:]
     if bad_files and not findings:
         k, v = bad_files[0]
